@@ -338,6 +338,13 @@ static var Type_Scan(var self, var cls) {
     return throw(TypeError, "Method call got non type '%s'", type_of(self));
   }
 #endif
+
+#if CELLO_NULL_CHECK == 1
+  if (cls is NULL) {
+    return throw(ValueError,
+      "Received NULL as class to look up in type '%s'", Type_Name_Arg(self));
+  }
+#endif
   
   struct Type* t;
   
